@@ -199,8 +199,16 @@ def run(ctx, rep):
             mutated, facts = ms
             n = P_gnode(pi)
             if n in batch_next:
-                # a batch operation is judged per element: elements accepted earlier are legitimately kept
-                mutated, facts = None, frozenset()
+                # a batch operation is judged per element: what EARLIER ELEMENTS did is legitimately kept - but not what the operation
+                # did before it took its first element (that is done for every call, refused or not)
+                plain = isinstance(mutated, tuple) and len(mutated) == 2 and mutated[0] not in ("refused", "after")
+                if ("pre-mut", True) in facts and plain:
+                    facts = frozenset({("in-batch", True), ("pre-mut", True)})
+                elif plain and ("in-batch", True) not in facts:
+                    facts = frozenset({("in-batch", True), ("pre-mut", True)})
+                else:
+                    mutated = None
+                    facts = frozenset({("in-batch", True)})
             m = muts.get(n)
             if isinstance(mutated, tuple) and mutated and mutated[0] == "refused":
                 # after a refusal was raised: any further mutation on the way out is a trace too
